@@ -1,5 +1,6 @@
 import SaModel.Roundtrip.Types
 import SaModel.Spec.Interp
+import SaModel.Lemmas.C04Pos
 /-
 C04, injectivity of the Rust → Arrow mapping, first half: the documented mapping (`Spec.interpDT`, the very function
 the `build` / `roundtrip` drivers compare the implementation's arrays with) sends the serialization of a well-typed
@@ -7,7 +8,8 @@ value at its traced field to the type-directed logical value:
       interpDT ext dt nb md (ser t v) = ok (lv t v)        where (dt, nb₀, md) = mappingDT o t and nb₀ → nb,
 for every option set `o`, provided no `None` sits at a Union position (documented exclusion).
 Proved for the fragment `frag` (scalars, `()`, unit structs, Option, newtype structs, Vec, maps, structs by field name
-incl. `skip_serializing_if`); the fragment contains no enum, so the Union exclusion is vacuous in it.
+incl. `skip_serializing_if`, tuples / tuple structs / arrays by position: `Lemmas/C04Pos.lean`); the fragment contains no
+enum, so the Union exclusion is vacuous in it (enums: `Lemmas/C04Enum*.lean`).
 Structurally recursive on the value.
 -/
 namespace SaModel.Roundtrip
@@ -75,20 +77,84 @@ def isOption : Ty → Bool
   | .option _ => true
   | _ => false
 
-mutual
-/-- the fragment of the grammar for which `interp_ser` is proved: scalars, `()`, unit structs, Option, newtype
-structs, Vec, maps, and structs with pairwise distinct field names whose `skip_serializing_if = "Option::is_none"`
-fields are Options (both guaranteed by rustc / serde for real types).  Tuples and enums are not in it yet. -/
-def frag : Ty → Bool
-  | .prim _ | .unit | .unitStruct _ => true
-  | .option t | .newtype _ t | .vec t => frag t
-  | .map k v => frag k && frag v
-  | .struct _ fs => !hasDup fs.names && fragFields fs
-  | _ => false
+def Variants.names : Variants → List String
+  | .nil => []
+  | .cons n _ r => n :: r.names
 
-def fragFields : TFields → Bool
+mutual
+/-- the grammar for which `interp_ser` / `cast_lv` are proved, enums included: scalars, `()`, unit structs, Option,
+newtype structs, Vec, maps, tuples / tuple structs / arrays, structs and enums (unit / newtype / tuple / struct
+variants) with pairwise distinct field / variant names whose `skip_serializing_if = "Option::is_none"` fields are
+Options (guaranteed by rustc / serde for real types). -/
+def fragE : Ty → Bool
+  | .prim _ | .unit | .unitStruct _ => true
+  | .option t | .newtype _ t | .vec t => fragE t
+  | .map k v => fragE k && fragE v
+  | .struct _ fs => !hasDup fs.names && fragEFields fs
+  | .tuple ts | .tupleStruct _ ts => fragETys ts
+  | .enum _ vars => !hasDup vars.names && fragEVariants vars
+
+def fragETys : Tys → Bool
   | .nil => true
-  | .cons _ skip t rest => frag t && (!skip || isOption t) && fragFields rest
+  | .cons t rest => fragE t && fragETys rest
+
+def fragEFields : TFields → Bool
+  | .nil => true
+  | .cons _ skip t rest => fragE t && (!skip || isOption t) && fragEFields rest
+
+def fragEVariant : Variant → Bool
+  | .unit => true
+  | .newtype t => fragE t
+  | .tuple ts => fragETys ts
+  | .struct fs => !hasDup fs.names && fragEFields fs
+
+def fragEVariants : Variants → Bool
+  | .nil => true
+  | .cons _ v rest => fragEVariant v && fragEVariants rest
+end
+
+mutual
+/-- the documented exclusions, type directed: **no `None` at a position traced to a Union** (`Option<enum>` = `None`,
+also as a field left out by `skip_serializing_if`), and no value of a data-less enum stored as a string
+(`enums_without_data_as_strings`: the logical value is the variant name there, `lv` describes the Union form).
+`noneAtUnion (mappingDT o t).1 (ser t v) = false` is the same exclusion read off schema × serialized value. -/
+def inScope (o : TraceOpts) : Ty → Val → Bool
+  | .option t, .none => !isUnion (mappingDT o t).1
+  | .option t, .some v => inScope o t v
+  | .newtype _ t, .newtype v => inScope o t v
+  | .vec t, .vec vs => inScopeAll o t vs
+  | .tuple ts, .tuple vs => inScopePos o ts vs
+  | .tupleStruct _ ts, .tuple vs => inScopePos o ts vs
+  | .struct _ fs, .struct vs => inScopeFields o fs vs
+  | .map k v, .map es => inScopeEntries o k v es
+  | .enum _ vars, .variant i payload =>
+    !(vars.allUnit && o.enumsWithoutDataAsStrings) &&
+    match vars.get? i with
+    | some (_, .newtype t) => inScopeSingle o t payload
+    | some (_, .tuple ts) => inScopePos o ts payload
+    | some (_, .struct fs) => inScopeFields o fs payload
+    | _ => true
+  | _, _ => true
+
+def inScopeSingle (o : TraceOpts) (t : Ty) : Vals → Bool
+  | .cons v .nil => inScope o t v
+  | _ => true
+
+def inScopeAll (o : TraceOpts) (t : Ty) : Vals → Bool
+  | .nil => true
+  | .cons v rest => inScope o t v && inScopeAll o t rest
+
+def inScopePos (o : TraceOpts) : Tys → Vals → Bool
+  | .cons t ts, .cons v rest => inScope o t v && inScopePos o ts rest
+  | _, _ => true
+
+def inScopeFields (o : TraceOpts) : TFields → Vals → Bool
+  | .cons _ _ t fs, .cons v rest => inScope o t v && inScopeFields o fs rest
+  | _, _ => true
+
+def inScopeEntries (o : TraceOpts) (k v : Ty) : VEntries → Bool
+  | .nil => true
+  | .cons a b rest => inScope o k a && inScope o v b && inScopeEntries o k v rest
 end
 
 theorem primDT_not_union (o : TraceOpts) (p : Prim) : isUnion (primDT o p) = false := by
@@ -96,36 +162,6 @@ theorem primDT_not_union (o : TraceOpts) (p : Prim) : isUnion (primDT o p) = fal
   | int t => cases t <;> rfl
   | str => simp only [primDT, strDT]; split <;> (try split) <;> rfl
   | _ => rfl
-
-/-- no type of the fragment is traced to a Union -/
-theorem frag_not_union (o : TraceOpts) : ∀ (t : Ty) (dt : DataType) (nb : Bool) (md : Metadata),
-    frag t = true → mappingDT o t = (dt, nb, md) → isUnion dt = false
-  | .prim p, dt, nb, md, _, h => by
-    simp only [mappingDT, Prod.mk.injEq] at h; obtain ⟨rfl, _, _⟩ := h; exact primDT_not_union o p
-  | .unit, dt, nb, md, _, h => by
-    simp only [mappingDT, Prod.mk.injEq] at h; obtain ⟨rfl, _, _⟩ := h; rfl
-  | .unitStruct _, dt, nb, md, _, h => by
-    simp only [mappingDT, Prod.mk.injEq] at h; obtain ⟨rfl, _, _⟩ := h; rfl
-  | .option t, dt, nb, md, hf, h => by
-    rcases hm : mappingDT o t with ⟨dt', nb', md'⟩
-    simp only [mappingDT, hm, Prod.mk.injEq] at h; obtain ⟨rfl, _, _⟩ := h
-    exact frag_not_union o t _ _ _ (by simpa [frag] using hf) hm
-  | .newtype _ t, dt, nb, md, hf, h => by
-    simp only [mappingDT] at h
-    exact frag_not_union o t _ _ _ (by simpa [frag] using hf) h
-  | .vec t, dt, nb, md, _, h => by
-    rcases hm : mappingDT o t with ⟨dt', nb', md'⟩
-    simp only [mappingDT, hm, Prod.mk.injEq] at h; obtain ⟨rfl, _, _⟩ := h
-    split <;> rfl
-  | .map k v, dt, nb, md, _, h => by
-    rcases hk : mappingDT o k with ⟨kdt, knb, kmd⟩
-    rcases hv : mappingDT o v with ⟨vdt, vnb, vmd⟩
-    simp only [mappingDT, hk, hv, Prod.mk.injEq] at h; obtain ⟨rfl, _, _⟩ := h; rfl
-  | .struct _ fs, dt, nb, md, _, h => by
-    simp only [mappingDT, Prod.mk.injEq] at h; obtain ⟨rfl, _, _⟩ := h; rfl
-  | .tuple _, _, _, _, hf, _ => by simp [frag] at hf
-  | .tupleStruct _ _, _, _, _, hf, _ => by simp [frag] at hf
-  | .enum _ _, _, _, _, hf, _ => by simp [frag] at hf
 
 theorem interp_prim (ext : Ext) (o : TraceOpts) (p : Prim) (v : Val) (nb : Bool) (h : p.wt v = true) :
     interpDT ext (primDT o p) nb [] (ser (.prim p) v) = .ok (lv (.prim p) v) := by
@@ -249,18 +285,19 @@ theorem structOf_eq (ext : Ext) (fields : List Field) (sf : SFields) :
       (do let vals ← fields.mapM (stepF ext sf); pure (.struct (LFields.ofList vals))) := rfl
 
 theorem mapM_struct (ext : Ext) (o : TraceOpts) (fsAll : TFields) (vsAll : Vals) (hd : hasDup fsAll.names = false) :
-    ∀ (fs2 : TFields) (vs2 : Vals), wtFields fs2 vs2 = true → fragFields fs2 = true →
+    ∀ (fs2 : TFields) (vs2 : Vals), wtFields fs2 vs2 = true → fragEFields fs2 = true → inScopeFields o fs2 vs2 = true →
     Found fsAll vsAll fs2 vs2 → EachOk ext o fs2 vs2 →
     (mappingFields o fs2).toList.mapM (stepF ext (serFields fsAll vsAll)) = .ok (lvFields fs2 vs2).toList
-  | .nil, .nil, _, _, _, _ => by simp [mappingFields, Fields.toList, lvFields, LFields.toList, pure, Except.pure]
-  | .nil, .cons _ _, hw, _, _, _ => by simp [wtFields] at hw
-  | .cons _ _ _ _, .nil, hw, _, _, _ => by simp [wtFields] at hw
-  | .cons n s t rest, .cons v vrest, hw, hf, hfound, heach => by
+  | .nil, .nil, _, _, _, _, _ => by simp [mappingFields, Fields.toList, lvFields, LFields.toList, pure, Except.pure]
+  | .nil, .cons _ _, hw, _, _, _, _ => by simp [wtFields] at hw
+  | .cons _ _ _ _, .nil, hw, _, _, _, _ => by simp [wtFields] at hw
+  | .cons n s t rest, .cons v vrest, hw, hf, hsc, hfound, heach => by
     simp only [wtFields, Bool.and_eq_true] at hw
-    simp only [fragFields, Bool.and_eq_true] at hf
+    simp only [fragEFields, Bool.and_eq_true] at hf
+    simp only [inScopeFields, Bool.and_eq_true] at hsc
     obtain ⟨hl, hfr⟩ := hfound
     obtain ⟨hev, her⟩ := heach
-    have ih := mapM_struct ext o fsAll vsAll hd rest vrest hw.2 hf.2 hfr her
+    have ih := mapM_struct ext o fsAll vsAll hd rest vrest hw.2 hf.2 hsc.2 hfr her
     rcases hm : mappingDT o t with ⟨dt, nb0, md⟩
     have hby := interpByName_ser ext n dt nb0 md fsAll vsAll hd (by
       intro s' t' v' h' _
@@ -280,61 +317,107 @@ theorem mapM_struct (ext : Ext) (o : TraceOpts) (fsAll : TFields) (vsAll : Vals)
       | option t' =>
         rcases hm' : mappingDT o t' with ⟨dt', nb', md'⟩
         simp only [mappingDT, hm', Prod.mk.injEq] at hm; obtain ⟨rfl, rfl, rfl⟩ := hm
-        have hnull := interpNull_ok dt' md' (unknown_mapping o t' _ _ _ hm')
-          (frag_not_union o t' _ _ _ (by simpa [frag] using hf.1.1) hm')
+        have hnu : isUnion dt' = false := by simpa [inScope, hm'] using hsc.1
+        have hnull := interpNull_ok dt' md' (unknown_mapping o t' _ _ _ hm') hnu
         simp [stepF, Field.name, Field.dataType, Field.nullable, Field.metadata, hby, hs1, pickOne, hnull, lv,
           bind, Except.bind, pure, Except.pure]
       | _ => simp [isOption] at hopt
     · simp [stepF, Field.name, Field.dataType, Field.nullable, Field.metadata, hby, hs, pickOne,
         bind, Except.bind, pure, Except.pure]
 
+/-- a serialized record of well-typed, in-scope fields, at the Struct its type is traced to -/
+theorem interp_record (ext : Ext) (o : TraceOpts) (fs : TFields) (vs : Vals) (hd : hasDup fs.names = false)
+    (hw : wtFields fs vs = true) (hf : fragEFields fs = true) (hsc : inScopeFields o fs vs = true) (heach : EachOk ext o fs vs) :
+    structOf (mappingFields o fs).toList (fun f => interpByName ext f.name f.dataType f.nullable f.metadata (serFields fs vs)) =
+      .ok (.struct (lvFields fs vs)) := by
+  have hfound := found_of fs vs fs vs (fun _ _ => rfl) hd
+  rw [structOf_eq, mapM_struct ext o fs vs hd fs vs hw hf hsc hfound heach]
+  simp [bind, Except.bind, pure, Except.pure, LFields.ofList_toList]
+
+/-! ### enums: the children of the Union -/
+
+/-- the child of the Union an enum is traced to, for one variant -/
+def variantField (o : TraceOpts) (vn : String) : Variant → Field
+  | .unit => .mk vn .null true []
+  | .newtype t => .mk vn (mappingDT o t).1 (mappingDT o t).2.1 (mappingDT o t).2.2
+  | .tuple ts => .mk vn (.struct (mappingPos o 0 ts)) false TUPLE_MD
+  | .struct fs => .mk vn (.struct (mappingFields o fs)) false []
+
+theorem mappingVariants_get (o : TraceOpts) : ∀ (vars : Variants) (k i : Nat),
+    (mappingVariants o k vars).toList[i]? = (vars.get? i).map fun p => (((k + i : Nat) : Int), variantField o p.1 p.2)
+  | .nil, _, _ => by simp [mappingVariants, UFields.toList, Variants.get?]
+  | .cons vn v rest, k, 0 => by
+    cases v <;> simp [mappingVariants, UFields.toList, Variants.get?, variantField]
+  | .cons vn v rest, k, i + 1 => by
+    have ih := mappingVariants_get o rest (k + 1) i
+    have hk : k + 1 + i = k + (i + 1) := by omega
+    rw [hk] at ih
+    cases v <;> (simp only [mappingVariants, UFields.toList, Variants.get?, List.getElem?_cons_succ]; exact ih)
+
+theorem fragEVariants_get : ∀ (vars : Variants) (i : Nat) (vn : String) (kind : Variant),
+    fragEVariants vars = true → vars.get? i = some (vn, kind) → fragEVariant kind = true
+  | .nil, _, _, _, _, h => by simp [Variants.get?] at h
+  | .cons n v rest, 0, vn, kind, hf, h => by
+    simp only [Variants.get?, Option.some.injEq, Prod.mk.injEq] at h
+    simp only [fragEVariants, Bool.and_eq_true] at hf
+    rw [← h.2]; exact hf.1
+  | .cons n v rest, i + 1, vn, kind, hf, h => by
+    simp only [fragEVariants, Bool.and_eq_true] at hf
+    exact fragEVariants_get rest i vn kind hf.2 (by simpa [Variants.get?] using h)
+
+theorem enum_union (o : TraceOpts) (n : String) (vars : Variants) (dt : DataType) (nb : Bool) (md : Metadata)
+    (hform : (vars.allUnit && o.enumsWithoutDataAsStrings) = false) (hm : mappingDT o (.enum n vars) = (dt, nb, md)) :
+    dt = .union (mappingVariants o 0 vars) .dense ∧ nb = false ∧ md = [] := by
+  simp only [mappingDT, hform, Bool.false_eq_true, if_false, Prod.mk.injEq] at hm
+  exact ⟨hm.1.symm, hm.2.1.symm, hm.2.2.symm⟩
+
 mutual
-theorem interp_ser (ext : Ext) (o : TraceOpts) : ∀ (t : Ty) (v : Val) (nb : Bool) (dt : DataType) (nb0 : Bool) (md : Metadata),
-    frag t = true → wt t v = true → mappingDT o t = (dt, nb0, md) → (nb0 = true → nb = true) →
+theorem interp_serE (ext : Ext) (o : TraceOpts) : ∀ (t : Ty) (v : Val) (nb : Bool) (dt : DataType) (nb0 : Bool) (md : Metadata),
+    fragE t = true → wt t v = true → inScope o t v = true → mappingDT o t = (dt, nb0, md) → (nb0 = true → nb = true) →
     interpDT ext dt nb md (ser t v) = .ok (lv t v)
-  | t, .bool b, nb, dt, nb0, md, hf, hw, hm, hnb => by
+  | t, .bool b, nb, dt, nb0, md, hf, hw, hs, hm, hnb => by
     cases t with
     | prim p =>
       simp only [mappingDT, Prod.mk.injEq] at hm; obtain ⟨rfl, rfl, rfl⟩ := hm
       exact interp_prim ext o p _ nb (by simpa [wt] using hw)
     | _ => simp [wt] at hw
-  | t, .int x, nb, dt, nb0, md, hf, hw, hm, hnb => by
+  | t, .int x, nb, dt, nb0, md, hf, hw, hs, hm, hnb => by
     cases t with
     | prim p =>
       simp only [mappingDT, Prod.mk.injEq] at hm; obtain ⟨rfl, rfl, rfl⟩ := hm
       exact interp_prim ext o p _ nb (by simpa [wt] using hw)
     | _ => simp [wt] at hw
-  | t, .f32 x, nb, dt, nb0, md, hf, hw, hm, hnb => by
+  | t, .f32 x, nb, dt, nb0, md, hf, hw, hs, hm, hnb => by
     cases t with
     | prim p =>
       simp only [mappingDT, Prod.mk.injEq] at hm; obtain ⟨rfl, rfl, rfl⟩ := hm
       exact interp_prim ext o p _ nb (by simpa [wt] using hw)
     | _ => simp [wt] at hw
-  | t, .f64 x, nb, dt, nb0, md, hf, hw, hm, hnb => by
+  | t, .f64 x, nb, dt, nb0, md, hf, hw, hs, hm, hnb => by
     cases t with
     | prim p =>
       simp only [mappingDT, Prod.mk.injEq] at hm; obtain ⟨rfl, rfl, rfl⟩ := hm
       exact interp_prim ext o p _ nb (by simpa [wt] using hw)
     | _ => simp [wt] at hw
-  | t, .char x, nb, dt, nb0, md, hf, hw, hm, hnb => by
+  | t, .char x, nb, dt, nb0, md, hf, hw, hs, hm, hnb => by
     cases t with
     | prim p =>
       simp only [mappingDT, Prod.mk.injEq] at hm; obtain ⟨rfl, rfl, rfl⟩ := hm
       exact interp_prim ext o p _ nb (by simpa [wt] using hw)
     | _ => simp [wt] at hw
-  | t, .str x, nb, dt, nb0, md, hf, hw, hm, hnb => by
+  | t, .str x, nb, dt, nb0, md, hf, hw, hs, hm, hnb => by
     cases t with
     | prim p =>
       simp only [mappingDT, Prod.mk.injEq] at hm; obtain ⟨rfl, rfl, rfl⟩ := hm
       exact interp_prim ext o p _ nb (by simpa [wt] using hw)
     | _ => simp [wt] at hw
-  | t, .bytes x, nb, dt, nb0, md, hf, hw, hm, hnb => by
+  | t, .bytes x, nb, dt, nb0, md, hf, hw, hs, hm, hnb => by
     cases t with
     | prim p =>
       simp only [mappingDT, Prod.mk.injEq] at hm; obtain ⟨rfl, rfl, rfl⟩ := hm
       exact interp_prim ext o p _ nb (by simpa [wt] using hw)
     | _ => simp [wt] at hw
-  | t, .unit, nb, dt, nb0, md, hf, hw, hm, hnb => by
+  | t, .unit, nb, dt, nb0, md, hf, hw, hs, hm, hnb => by
     cases t with
     | prim p => cases p <;> simp [wt, Prim.wt] at hw
     | unit =>
@@ -344,7 +427,7 @@ theorem interp_ser (ext : Ext) (o : TraceOpts) : ∀ (t : Ty) (v : Val) (nb : Bo
       simp only [mappingDT, Prod.mk.injEq] at hm; obtain ⟨rfl, rfl, rfl⟩ := hm
       simp [ser, lv, interpDT, interpScalar, isUnknownVariant, strategyOf_nil]
     | _ => simp [wt] at hw
-  | t, .none, nb, dt, nb0, md, hf, hw, hm, hnb => by
+  | t, .none, nb, dt, nb0, md, hf, hw, hs, hm, hnb => by
     cases t with
     | prim p => cases p <;> simp [wt, Prim.wt] at hw
     | option t' =>
@@ -352,10 +435,11 @@ theorem interp_ser (ext : Ext) (o : TraceOpts) : ∀ (t : Ty) (v : Val) (nb : Bo
       simp only [mappingDT, hm', Prod.mk.injEq] at hm; obtain ⟨rfl, rfl, rfl⟩ := hm
       have hnb' : nb = true := hnb rfl
       subst hnb'
+      have hnu : isUnion dt' = false := by simpa [inScope, hm'] using hs
       simp only [ser, lv, interpDT]
-      exact interpNull_ok _ _ (unknown_mapping o t' _ _ _ hm') (frag_not_union o t' _ _ _ (by simpa [frag] using hf) hm')
+      exact interpNull_ok _ _ (unknown_mapping o t' _ _ _ hm') hnu
     | _ => simp [wt] at hw
-  | t, .some v, nb, dt, nb0, md, hf, hw, hm, hnb => by
+  | t, .some v, nb, dt, nb0, md, hf, hw, hs, hm, hnb => by
     cases t with
     | prim p => cases p <;> simp [wt, Prim.wt] at hw
     | option t' =>
@@ -363,95 +447,326 @@ theorem interp_ser (ext : Ext) (o : TraceOpts) : ∀ (t : Ty) (v : Val) (nb : Bo
       simp only [mappingDT, hm', Prod.mk.injEq] at hm; obtain ⟨rfl, rfl, rfl⟩ := hm
       have hnb' : nb = true := hnb rfl
       simp only [ser, lv, interpDT]
-      exact interp_ser ext o t' v nb _ _ _ (by simpa [frag] using hf) (by simpa [wt] using hw) hm' (fun _ => hnb')
+      exact interp_serE ext o t' v nb _ _ _ (by simpa [fragE] using hf) (by simpa [wt] using hw)
+        (by simpa [inScope] using hs) hm' (fun _ => hnb')
     | _ => simp [wt] at hw
-  | t, .newtype v, nb, dt, nb0, md, hf, hw, hm, hnb => by
+  | t, .newtype v, nb, dt, nb0, md, hf, hw, hs, hm, hnb => by
     cases t with
     | prim p => cases p <;> simp [wt, Prim.wt] at hw
     | newtype n t' =>
       simp only [mappingDT] at hm
       simp only [ser, lv, interpDT]
-      exact interp_ser ext o t' v nb _ _ _ (by simpa [frag] using hf) (by simpa [wt] using hw) hm hnb
+      exact interp_serE ext o t' v nb _ _ _ (by simpa [fragE] using hf) (by simpa [wt] using hw)
+        (by simpa [inScope] using hs) hm hnb
     | _ => simp [wt] at hw
-  | t, .vec vs, nb, dt, nb0, md, hf, hw, hm, hnb => by
+  | t, .vec vs, nb, dt, nb0, md, hf, hw, hs, hm, hnb => by
     cases t with
     | prim p => cases p <;> simp [wt, Prim.wt] at hw
     | vec t' =>
       rcases hm' : mappingDT o t' with ⟨dt', nb', md'⟩
       simp only [mappingDT, hm', Prod.mk.injEq] at hm; obtain ⟨rfl, rfl, rfl⟩ := hm
-      have ih := interp_serAll ext o t' vs dt' nb' md' (by simpa [frag] using hf) (by simpa [wt] using hw) hm'
+      have ih := interp_serAllE ext o t' vs dt' nb' md' (by simpa [fragE] using hf) (by simpa [wt] using hw)
+        (by simpa [inScope] using hs) hm'
       by_cases hl : o.sequenceAsLargeList = true
       · simp [ser, lv, hl, interpDT, isUnknownVariant, ih, bind, Except.bind, pure, Except.pure, LVals.ofList_toList]
       · simp [ser, lv, hl, interpDT, isUnknownVariant, ih, bind, Except.bind, pure, Except.pure, LVals.ofList_toList]
     | _ => simp [wt] at hw
-  | t, .map es, nb, dt, nb0, md, hf, hw, hm, hnb => by
+  | t, .map es, nb, dt, nb0, md, hf, hw, hs, hm, hnb => by
     cases t with
     | prim p => cases p <;> simp [wt, Prim.wt] at hw
     | map k v =>
       rcases hk : mappingDT o k with ⟨kdt, knb, kmd⟩
       rcases hv : mappingDT o v with ⟨vdt, vnb, vmd⟩
       simp only [mappingDT, hk, hv, Prod.mk.injEq] at hm; obtain ⟨rfl, rfl, rfl⟩ := hm
-      simp only [frag, Bool.and_eq_true] at hf
-      have ih := interp_serEntries ext o k v es kdt knb kmd vdt vnb vmd hf.1 hf.2 (by simpa [wt] using hw) hk hv
+      simp only [fragE, Bool.and_eq_true] at hf
+      have ih := interp_serEntriesE ext o k v es kdt knb kmd vdt vnb vmd hf.1 hf.2 (by simpa [wt] using hw)
+        (by simpa [inScope] using hs) hk hv
       simp [ser, lv, interpDT, isUnknownVariant, ih, bind, Except.bind, pure, Except.pure, LEntries.ofList_toList]
     | _ => simp [wt] at hw
-  | t, .tuple vs, nb, dt, nb0, md, hf, hw, hm, hnb => by
+  | t, .tuple vs, nb, dt, nb0, md, hf, hw, hs, hm, hnb => by
     cases t with
     | prim p => cases p <;> simp [wt, Prim.wt] at hw
-    | tuple ts => simp [frag] at hf
-    | tupleStruct n ts => simp [frag] at hf
+    | tuple ts =>
+      simp only [mappingDT, Prod.mk.injEq] at hm; obtain ⟨rfl, rfl, rfl⟩ := hm
+      have hw' : wtPos ts vs = true := by simpa [wt] using hw
+      have heach := interp_serEachPosE ext o ts vs (by simpa [fragE] using hf) hw' (by simpa [inScope] using hs)
+      simp only [ser, lv, interpDT, isUnknownVariant_struct]
+      rw [interp_tuple ext o ts vs hw' heach]
+      simp [LFields.ofList_toList]
+    | tupleStruct n ts =>
+      simp only [mappingDT, Prod.mk.injEq] at hm; obtain ⟨rfl, rfl, rfl⟩ := hm
+      have hw' : wtPos ts vs = true := by simpa [wt] using hw
+      have heach := interp_serEachPosE ext o ts vs (by simpa [fragE] using hf) hw' (by simpa [inScope] using hs)
+      simp only [ser, lv, interpDT, isUnknownVariant_struct]
+      rw [interp_tuple ext o ts vs hw' heach]
+      simp [LFields.ofList_toList]
     | _ => simp [wt] at hw
-  | t, .struct vs, nb, dt, nb0, md, hf, hw, hm, hnb => by
+  | t, .struct vs, nb, dt, nb0, md, hf, hw, hs, hm, hnb => by
     cases t with
     | prim p => cases p <;> simp [wt, Prim.wt] at hw
     | struct n fs =>
       simp only [mappingDT, Prod.mk.injEq] at hm; obtain ⟨rfl, rfl, rfl⟩ := hm
-      simp only [frag, Bool.and_eq_true, Bool.not_eq_true'] at hf
+      simp only [fragE, Bool.and_eq_true, Bool.not_eq_true'] at hf
       have hw' : wtFields fs vs = true := by simpa [wt] using hw
-      have heach := interp_serEach ext o fs vs hf.2 hw'
-      have hfound := found_of fs vs fs vs (fun _ _ => rfl) hf.1
-      have hmap := mapM_struct ext o fs vs hf.1 fs vs hw' hf.2 hfound heach
+      have hs' : inScopeFields o fs vs = true := by simpa [inScope] using hs
+      have heach := interp_serEachE ext o fs vs hf.2 hw' hs'
       simp only [ser, lv, interpDT, isUnknownVariant_struct]
-      rw [structOf_eq, hmap]
-      simp [bind, Except.bind, pure, Except.pure, LFields.ofList_toList]
+      rw [interp_record ext o fs vs hf.1 hw' hf.2 hs' heach]
+      simp
     | _ => simp [wt] at hw
-  | t, .variant i p, nb, dt, nb0, md, hf, hw, hm, hnb => by
+  | t, .variant i p, nb, dt, nb0, md, hf, hw, hs, hm, hnb => by
     cases t with
     | prim p => cases p <;> simp [wt, Prim.wt] at hw
-    | enum n vars => simp [frag] at hf
+    | enum n vars =>
+      simp only [inScope, Bool.and_eq_true, Bool.not_eq_true'] at hs
+      obtain ⟨hform, hpay⟩ := hs
+      obtain ⟨rfl, rfl, rfl⟩ := enum_union o n vars dt nb0 md hform hm
+      simp only [fragE, Bool.and_eq_true, Bool.not_eq_true'] at hf
+      have hget := mappingVariants_get o vars 0 i
+      cases hg : vars.get? i with
+      | none => simp [wt, hg] at hw
+      | some q =>
+        obtain ⟨vn, kind⟩ := q
+        have hfk := fragEVariants_get vars i vn kind hf.2 hg
+        rw [hg] at hget
+        simp only [Option.map_some, Nat.zero_add] at hget
+        cases kind with
+        | unit =>
+          simp [ser, lv, hg, interpDT, hget, variantField, interpNull, isUnknownVariant, strategyOf_nil,
+            bind, Except.bind, pure, Except.pure]
+        | newtype t' =>
+          have hw' : wtSingle t' p = true := by simpa [wt, hg] using hw
+          rcases hm' : mappingDT o t' with ⟨dt', nb', md'⟩
+          cases p with
+          | nil => simp [wtSingle] at hw'
+          | cons v rest =>
+            cases rest with
+            | cons _ _ => simp [wtSingle] at hw'
+            | nil =>
+              have ih := interp_serE ext o t' v nb' dt' nb' md' (by simpa [fragEVariant] using hfk)
+                (by simpa [wtSingle] using hw') (by simpa [hg, inScopeSingle] using hpay) hm' (fun h => h)
+              simp [ser, lv, hg, serSingle, lvSingle, interpDT, hget, variantField, hm', ih,
+                bind, Except.bind, pure, Except.pure]
+        | tuple ts =>
+          have hw' : wtPos ts p = true := by simpa [wt, hg] using hw
+          have heach := interp_serEachPosE ext o ts p (by simpa [fragEVariant] using hfk) hw' (by simpa [hg] using hpay)
+          simp only [ser, lv, hg, interpDT, hget, variantField, isUnknownVariant_struct]
+          simp only [Bool.false_eq_true, if_false]
+          rw [interp_tuple ext o ts p hw' heach]
+          simp [bind, Except.bind, pure, Except.pure, LFields.ofList_toList]
+        | struct fs =>
+          have hw' : wtFields fs p = true := by simpa [wt, hg] using hw
+          simp only [fragEVariant, Bool.and_eq_true, Bool.not_eq_true'] at hfk
+          have hs' : inScopeFields o fs p = true := by simpa [hg] using hpay
+          have heach := interp_serEachE ext o fs p hfk.2 hw' hs'
+          simp only [ser, lv, hg, interpDT, hget, variantField, isUnknownVariant_struct]
+          simp only [Bool.false_eq_true, if_false]
+          rw [interp_record ext o fs p hfk.1 hw' hfk.2 hs' heach]
+          simp [bind, Except.bind, pure, Except.pure]
     | _ => simp [wt] at hw
 
-theorem interp_serAll (ext : Ext) (o : TraceOpts) : ∀ (t : Ty) (vs : Vals) (dt : DataType) (nb0 : Bool) (md : Metadata),
-    frag t = true → wtAll t vs = true → mappingDT o t = (dt, nb0, md) →
+theorem interp_serAllE (ext : Ext) (o : TraceOpts) : ∀ (t : Ty) (vs : Vals) (dt : DataType) (nb0 : Bool) (md : Metadata),
+    fragE t = true → wtAll t vs = true → inScopeAll o t vs = true → mappingDT o t = (dt, nb0, md) →
     interpAll ext dt nb0 md (serAll t vs) = .ok (lvAll t vs).toList
-  | t, .nil, dt, nb0, md, _, _, _ => by simp [serAll, lvAll, interpAll, LVals.toList]
-  | t, .cons v rest, dt, nb0, md, hf, hw, hm => by
+  | t, .nil, dt, nb0, md, _, _, _, _ => by simp [serAll, lvAll, interpAll, LVals.toList]
+  | t, .cons v rest, dt, nb0, md, hf, hw, hs, hm => by
     simp only [wtAll, Bool.and_eq_true] at hw
-    have h1 := interp_ser ext o t v nb0 dt nb0 md hf hw.1 hm (fun h => h)
-    have h2 := interp_serAll ext o t rest dt nb0 md hf hw.2 hm
+    simp only [inScopeAll, Bool.and_eq_true] at hs
+    have h1 := interp_serE ext o t v nb0 dt nb0 md hf hw.1 hs.1 hm (fun h => h)
+    have h2 := interp_serAllE ext o t rest dt nb0 md hf hw.2 hs.2 hm
     simp [serAll, lvAll, interpAll, LVals.toList, h1, h2, bind, Except.bind, pure, Except.pure]
 
-theorem interp_serEntries (ext : Ext) (o : TraceOpts) : ∀ (k v : Ty) (es : VEntries)
+theorem interp_serEntriesE (ext : Ext) (o : TraceOpts) : ∀ (k v : Ty) (es : VEntries)
     (kdt : DataType) (knb : Bool) (kmd : Metadata) (vdt : DataType) (vnb : Bool) (vmd : Metadata),
-    frag k = true → frag v = true → wtEntries k v es = true → mappingDT o k = (kdt, knb, kmd) → mappingDT o v = (vdt, vnb, vmd) →
+    fragE k = true → fragE v = true → wtEntries k v es = true → inScopeEntries o k v es = true →
+    mappingDT o k = (kdt, knb, kmd) → mappingDT o v = (vdt, vnb, vmd) →
     interpEntries ext kdt knb kmd vdt vnb vmd (serEntries k v es) = .ok (lvEntries k v es).toList
-  | k, v, .nil, _, _, _, _, _, _, _, _, _, _, _ => by simp [serEntries, lvEntries, interpEntries, LEntries.toList]
-  | k, v, .cons a b rest, kdt, knb, kmd, vdt, vnb, vmd, hfk, hfv, hw, hk, hv => by
+  | k, v, .nil, _, _, _, _, _, _, _, _, _, _, _, _ => by simp [serEntries, lvEntries, interpEntries, LEntries.toList]
+  | k, v, .cons a b rest, kdt, knb, kmd, vdt, vnb, vmd, hfk, hfv, hw, hs, hk, hv => by
     simp only [wtEntries, Bool.and_eq_true] at hw
-    have h1 := interp_ser ext o k a knb kdt knb kmd hfk hw.1.1 hk (fun h => h)
-    have h2 := interp_ser ext o v b vnb vdt vnb vmd hfv hw.1.2 hv (fun h => h)
-    have h3 := interp_serEntries ext o k v rest kdt knb kmd vdt vnb vmd hfk hfv hw.2 hk hv
+    simp only [inScopeEntries, Bool.and_eq_true] at hs
+    have h1 := interp_serE ext o k a knb kdt knb kmd hfk hw.1.1 hs.1.1 hk (fun h => h)
+    have h2 := interp_serE ext o v b vnb vdt vnb vmd hfv hw.1.2 hs.1.2 hv (fun h => h)
+    have h3 := interp_serEntriesE ext o k v rest kdt knb kmd vdt vnb vmd hfk hfv hw.2 hs.2 hk hv
     simp [serEntries, lvEntries, interpEntries, LEntries.toList, h1, h2, h3, bind, Except.bind, pure, Except.pure]
 
-theorem interp_serEach (ext : Ext) (o : TraceOpts) : ∀ (fs : TFields) (vs : Vals),
-    fragFields fs = true → wtFields fs vs = true → EachOk ext o fs vs
-  | .nil, _, _, _ => by simp [EachOk]
-  | .cons _ _ _ _, .nil, _, _ => by simp [EachOk]
-  | .cons n s t rest, .cons v vrest, hf, hw => by
-    simp only [fragFields, Bool.and_eq_true] at hf
+theorem interp_serEachE (ext : Ext) (o : TraceOpts) : ∀ (fs : TFields) (vs : Vals),
+    fragEFields fs = true → wtFields fs vs = true → inScopeFields o fs vs = true → EachOk ext o fs vs
+  | .nil, _, _, _, _ => by simp [EachOk]
+  | .cons _ _ _ _, .nil, _, _, _ => by simp [EachOk]
+  | .cons n s t rest, .cons v vrest, hf, hw, hs => by
+    simp only [fragEFields, Bool.and_eq_true] at hf
     simp only [wtFields, Bool.and_eq_true] at hw
-    exact ⟨fun dt nb0 md hm => interp_ser ext o t v nb0 dt nb0 md hf.1.1 hw.1 hm (fun h => h),
-      interp_serEach ext o rest vrest hf.2 hw.2⟩
+    simp only [inScopeFields, Bool.and_eq_true] at hs
+    exact ⟨fun dt nb0 md hm => interp_serE ext o t v nb0 dt nb0 md hf.1.1 hw.1 hs.1 hm (fun h => h),
+      interp_serEachE ext o rest vrest hf.2 hw.2 hs.2⟩
+
+theorem interp_serEachPosE (ext : Ext) (o : TraceOpts) : ∀ (ts : Tys) (vs : Vals),
+    fragETys ts = true → wtPos ts vs = true → inScopePos o ts vs = true → EachOkPos ext o ts vs
+  | .nil, _, _, _, _ => by simp [EachOkPos]
+  | .cons _ _, .nil, _, _, _ => by simp [EachOkPos]
+  | .cons t rest, .cons v vrest, hf, hw, hs => by
+    simp only [fragETys, Bool.and_eq_true] at hf
+    simp only [wtPos, Bool.and_eq_true] at hw
+    simp only [inScopePos, Bool.and_eq_true] at hs
+    exact ⟨fun dt nb0 md hm => interp_serE ext o t v nb0 dt nb0 md hf.1 hw.1 hs.1 hm (fun h => h),
+      interp_serEachPosE ext o rest vrest hf.2 hw.2 hs.2⟩
 end
+
+/-! ### the enum-free fragment -/
+
+mutual
+/-- the fragment of the grammar for which `interp_ser` is proved: scalars, `()`, unit structs, Option, newtype
+structs, Vec, maps, and structs with pairwise distinct field names whose `skip_serializing_if = "Option::is_none"`
+fields are Options (both guaranteed by rustc / serde for real types), tuples / tuple structs / arrays.  Enums are not
+in it. -/
+def frag : Ty → Bool
+  | .prim _ | .unit | .unitStruct _ => true
+  | .option t | .newtype _ t | .vec t => frag t
+  | .map k v => frag k && frag v
+  | .struct _ fs => !hasDup fs.names && fragFields fs
+  | .tuple ts | .tupleStruct _ ts => fragTys ts
+  | _ => false
+
+def fragTys : Tys → Bool
+  | .nil => true
+  | .cons t rest => frag t && fragTys rest
+
+def fragFields : TFields → Bool
+  | .nil => true
+  | .cons _ skip t rest => frag t && (!skip || isOption t) && fragFields rest
+end
+
+/-- no type of the fragment is traced to a Union -/
+theorem frag_not_union (o : TraceOpts) : ∀ (t : Ty) (dt : DataType) (nb : Bool) (md : Metadata),
+    frag t = true → mappingDT o t = (dt, nb, md) → isUnion dt = false
+  | .prim p, dt, nb, md, _, h => by
+    simp only [mappingDT, Prod.mk.injEq] at h; obtain ⟨rfl, _, _⟩ := h; exact primDT_not_union o p
+  | .unit, dt, nb, md, _, h => by
+    simp only [mappingDT, Prod.mk.injEq] at h; obtain ⟨rfl, _, _⟩ := h; rfl
+  | .unitStruct _, dt, nb, md, _, h => by
+    simp only [mappingDT, Prod.mk.injEq] at h; obtain ⟨rfl, _, _⟩ := h; rfl
+  | .option t, dt, nb, md, hf, h => by
+    rcases hm : mappingDT o t with ⟨dt', nb', md'⟩
+    simp only [mappingDT, hm, Prod.mk.injEq] at h; obtain ⟨rfl, _, _⟩ := h
+    exact frag_not_union o t _ _ _ (by simpa [frag] using hf) hm
+  | .newtype _ t, dt, nb, md, hf, h => by
+    simp only [mappingDT] at h
+    exact frag_not_union o t _ _ _ (by simpa [frag] using hf) h
+  | .vec t, dt, nb, md, _, h => by
+    rcases hm : mappingDT o t with ⟨dt', nb', md'⟩
+    simp only [mappingDT, hm, Prod.mk.injEq] at h; obtain ⟨rfl, _, _⟩ := h
+    split <;> rfl
+  | .map k v, dt, nb, md, _, h => by
+    rcases hk : mappingDT o k with ⟨kdt, knb, kmd⟩
+    rcases hv : mappingDT o v with ⟨vdt, vnb, vmd⟩
+    simp only [mappingDT, hk, hv, Prod.mk.injEq] at h; obtain ⟨rfl, _, _⟩ := h; rfl
+  | .struct _ fs, dt, nb, md, _, h => by
+    simp only [mappingDT, Prod.mk.injEq] at h; obtain ⟨rfl, _, _⟩ := h; rfl
+  | .tuple _, dt, nb, md, _, h => by
+    simp only [mappingDT, Prod.mk.injEq] at h; obtain ⟨rfl, _, _⟩ := h; rfl
+  | .tupleStruct _ _, dt, nb, md, _, h => by
+    simp only [mappingDT, Prod.mk.injEq] at h; obtain ⟨rfl, _, _⟩ := h; rfl
+  | .enum _ _, _, _, _, hf, _ => by simp [frag] at hf
+
+
+mutual
+theorem frag_fragE : ∀ (t : Ty), frag t = true → fragE t = true
+  | .prim _, _ | .unit, _ | .unitStruct _, _ => by simp [fragE]
+  | .option t, h | .newtype _ t, h | .vec t, h => by
+    simp only [frag] at h; simpa [fragE] using frag_fragE t h
+  | .map k v, h => by
+    simp only [frag, Bool.and_eq_true] at h
+    simp [fragE, frag_fragE k h.1, frag_fragE v h.2]
+  | .struct _ fs, h => by
+    simp only [frag, Bool.and_eq_true] at h
+    simp [fragE, h.1, fragFields_fragE fs h.2]
+  | .tuple ts, h | .tupleStruct _ ts, h => by
+    simp only [frag] at h; simpa [fragE] using fragTys_fragE ts h
+  | .enum _ _, h => by simp [frag] at h
+theorem fragTys_fragE : ∀ (ts : Tys), fragTys ts = true → fragETys ts = true
+  | .nil, _ => by simp [fragETys]
+  | .cons t r, h => by
+    simp only [fragTys, Bool.and_eq_true] at h
+    simp [fragETys, frag_fragE t h.1, fragTys_fragE r h.2]
+theorem fragFields_fragE : ∀ (fs : TFields), fragFields fs = true → fragEFields fs = true
+  | .nil, _ => by simp [fragEFields]
+  | .cons _ s t r, h => by
+    simp only [fragFields, Bool.and_eq_true] at h
+    simp only [fragEFields, Bool.and_eq_true]
+    exact ⟨⟨frag_fragE t h.1.1, h.1.2⟩, fragFields_fragE r h.2⟩
+end
+
+mutual
+/-- the exclusions are vacuous in the enum-free fragment -/
+theorem frag_inScope (o : TraceOpts) : ∀ (t : Ty) (v : Val), frag t = true → inScope o t v = true
+  | t, .none, hf => by
+    cases t with
+    | option t' =>
+      rcases hm' : mappingDT o t' with ⟨dt', nb', md'⟩
+      simp [inScope, hm', frag_not_union o t' _ _ _ (by simpa [frag] using hf) hm']
+    | _ => simp [inScope]
+  | t, .some v, hf => by
+    cases t with
+    | option t' => simpa [inScope] using frag_inScope o t' v (by simpa [frag] using hf)
+    | _ => simp [inScope]
+  | t, .newtype v, hf => by
+    cases t with
+    | newtype n t' => simpa [inScope] using frag_inScope o t' v (by simpa [frag] using hf)
+    | _ => simp [inScope]
+  | t, .vec vs, hf => by
+    cases t with
+    | vec t' => simpa [inScope] using frag_inScopeAll o t' vs (by simpa [frag] using hf)
+    | _ => simp [inScope]
+  | t, .tuple vs, hf => by
+    cases t with
+    | tuple ts => simpa [inScope] using frag_inScopePos o ts vs (by simpa [frag] using hf)
+    | tupleStruct n ts => simpa [inScope] using frag_inScopePos o ts vs (by simpa [frag] using hf)
+    | _ => simp [inScope]
+  | t, .struct vs, hf => by
+    cases t with
+    | struct n fs =>
+      simp only [frag, Bool.and_eq_true] at hf
+      simpa [inScope] using frag_inScopeFields o fs vs hf.2
+    | _ => simp [inScope]
+  | t, .map es, hf => by
+    cases t with
+    | map k v =>
+      simp only [frag, Bool.and_eq_true] at hf
+      simpa [inScope] using frag_inScopeEntries o k v es hf.1 hf.2
+    | _ => simp [inScope]
+  | t, .variant i p, hf => by
+    cases t with
+    | enum n vars => simp [frag] at hf
+    | _ => simp [inScope]
+  | t, .bool _, _ | t, .int _, _ | t, .f32 _, _ | t, .f64 _, _ | t, .char _, _ | t, .str _, _ | t, .bytes _, _
+  | t, .unit, _ => by cases t <;> simp [inScope]
+theorem frag_inScopeAll (o : TraceOpts) : ∀ (t : Ty) (vs : Vals), frag t = true → inScopeAll o t vs = true
+  | _, .nil, _ => by simp [inScopeAll]
+  | t, .cons v r, hf => by simp [inScopeAll, frag_inScope o t v hf, frag_inScopeAll o t r hf]
+theorem frag_inScopePos (o : TraceOpts) : ∀ (ts : Tys) (vs : Vals), fragTys ts = true → inScopePos o ts vs = true
+  | .nil, _, _ => by simp [inScopePos]
+  | .cons _ _, .nil, _ => by simp [inScopePos]
+  | .cons t ts, .cons v r, hf => by
+    simp only [fragTys, Bool.and_eq_true] at hf
+    simp [inScopePos, frag_inScope o t v hf.1, frag_inScopePos o ts r hf.2]
+theorem frag_inScopeFields (o : TraceOpts) : ∀ (fs : TFields) (vs : Vals), fragFields fs = true → inScopeFields o fs vs = true
+  | .nil, _, _ => by simp [inScopeFields]
+  | .cons _ _ _ _, .nil, _ => by simp [inScopeFields]
+  | .cons _ _ t fs, .cons v r, hf => by
+    simp only [fragFields, Bool.and_eq_true] at hf
+    simp [inScopeFields, frag_inScope o t v hf.1.1, frag_inScopeFields o fs r hf.2]
+theorem frag_inScopeEntries (o : TraceOpts) : ∀ (k v : Ty) (es : VEntries), frag k = true → frag v = true →
+    inScopeEntries o k v es = true
+  | _, _, .nil, _, _ => by simp [inScopeEntries]
+  | k, v, .cons a b r, hk, hv => by
+    simp [inScopeEntries, frag_inScope o k a hk, frag_inScope o v b hv, frag_inScopeEntries o k v r hk hv]
+end
+
+/-- `interp_serE` on the enum-free fragment (no exclusion applies) -/
+theorem interp_ser (ext : Ext) (o : TraceOpts) (t : Ty) (v : Val) (nb : Bool) (dt : DataType) (nb0 : Bool) (md : Metadata)
+    (hf : frag t = true) (hw : wt t v = true) (hm : mappingDT o t = (dt, nb0, md)) (hnb : nb0 = true → nb = true) :
+    interpDT ext dt nb md (ser t v) = .ok (lv t v) :=
+  interp_serE ext o t v nb dt nb0 md (frag_fragE t hf) hw (frag_inScope o t v hf) hm hnb
 
 end SaModel.Roundtrip
